@@ -435,6 +435,9 @@ impl Future for DialFuture {
             // a real transport future may panic here: whoever polls a finished future is at fault
             let actor = w.actor();
             w.violate("C17/connect-future-polled-after-completion", format!("the connect future of dial #{id} was polled again by {actor:?} after it had completed"));
+            if w.cfg.fused_attempts {
+                return Poll::Pending;
+            }
             return Poll::Ready(Err(HErr("polled after completion")));
         }
         let st = w.step;
@@ -552,6 +555,9 @@ impl Future for HandshakeFuture {
         if self.done {
             let actor = w.actor();
             w.violate("C17/handshake-future-polled-after-completion", format!("the handshake future of dial #{did} was polled again by {actor:?} after it had completed"));
+            if w.cfg.fused_attempts {
+                return Poll::Pending;
+            }
             return Poll::Ready(Err(ConnectionError::Handshake(Box::new(HErr("polled after completion")))));
         }
         let st = w.step;
@@ -1062,6 +1068,11 @@ pub struct PoolCfg {
     /// `ConnectionPoolLayer` with one or two configuration calls - the last call decides
     #[serde(default)]
     pub build_path: u8,
+    /// connect and handshake futures are fused: polled again after completion they answer Pending for
+    /// ever (as `futures::future::Fuse` does) instead of failing at once - whoever polls a finished
+    /// future is at fault either way, but the consequences differ
+    #[serde(default)]
+    pub fused_attempts: bool,
 }
 fn yes() -> bool {
     true
@@ -2435,7 +2446,7 @@ pub fn corpus_mutation_strategy(seeds: Vec<PoolCase>, wt: Weights) -> impl Strat
         prop_oneof![3 => Just(None), 1 => cfg_any_strategy().prop_map(Some)],
     )
         .prop_map(move |(i, edits, cfg)| {
-            let mut case = seeds.get(i).cloned().unwrap_or(PoolCase { cfg: PoolCfg { idle_timeout_ms: None, max_idle: 32, cont: true, req_timeout_ms: None, open_is_ready: true, caller_host: 0, single_use: false, holder_polls_ready: false, ready_hides_close: false, build_path: 0 }, ops: vec![] });
+            let mut case = seeds.get(i).cloned().unwrap_or(PoolCase { cfg: PoolCfg { idle_timeout_ms: None, max_idle: 32, cont: true, req_timeout_ms: None, open_is_ready: true, caller_host: 0, single_use: false, holder_polls_ready: false, ready_hides_close: false, build_path: 0, fused_attempts: false }, ops: vec![] });
             for (kind, pos, op) in edits {
                 let len = case.ops.len();
                 let at = if len == 0 { 0 } else { pos as usize * len >> 16 };
@@ -2481,7 +2492,7 @@ pub fn load_corpus() -> Vec<PoolCase> {
 }
 
 pub fn cfg_plain_strategy() -> impl Strategy<Value = PoolCfg> {
-    (prop_oneof![3 => Just(None), 3 => Just(Some(3_600_000u64)), 1 => Just(Some(999u64)), 1 => Just(Some(1_900u64)), 1 => Just(Some(90_500u64))], any::<bool>(), prop_oneof![2 => Just(true), 1 => Just(false)]).prop_map(|(t, cont, open_is_ready)| PoolCfg {
+    (prop_oneof![3 => Just(None), 3 => Just(Some(3_600_000u64)), 1 => Just(Some(999u64)), 1 => Just(Some(1_900u64)), 1 => Just(Some(90_500u64))], any::<bool>(), prop_oneof![2 => Just(true), 1 => Just(false)], prop_oneof![2 => Just(false), 1 => Just(true)]).prop_map(|(t, cont, open_is_ready, fused_attempts)| PoolCfg {
         idle_timeout_ms: t,
         max_idle: 32,
         cont,
@@ -2492,6 +2503,7 @@ pub fn cfg_plain_strategy() -> impl Strategy<Value = PoolCfg> {
         holder_polls_ready: false,
         ready_hides_close: false,
         build_path: 0,
+        fused_attempts,
     })
 }
 
@@ -2507,6 +2519,7 @@ pub fn cfg_timeout_strategy() -> impl Strategy<Value = PoolCfg> {
         holder_polls_ready: false,
         ready_hides_close: false,
         build_path: 0,
+        fused_attempts: false,
     })
 }
 
@@ -2522,6 +2535,7 @@ pub fn cfg_expiry_strategy() -> impl Strategy<Value = PoolCfg> {
         holder_polls_ready: false,
         ready_hides_close: false,
         build_path: 0,
+        fused_attempts: false,
     })
 }
 
@@ -2568,7 +2582,7 @@ pub fn expiry_scenario_strategy() -> impl Strategy<Value = PoolCase> {
             for j in 0..probes {
                 ops.push(Op::Poll(((j * 65536) / probes) as u16 + 1));
             }
-            PoolCase { cfg: PoolCfg { idle_timeout_ms: timeout, max_idle: 32, cont, req_timeout_ms: None, open_is_ready: true, caller_host: 0, single_use: false, holder_polls_ready: false, ready_hides_close: false, build_path: 0 }, ops }
+            PoolCase { cfg: PoolCfg { idle_timeout_ms: timeout, max_idle: 32, cont, req_timeout_ms: None, open_is_ready: true, caller_host: 0, single_use: false, holder_polls_ready: false, ready_hides_close: false, build_path: 0, fused_attempts: false }, ops }
         })
 }
 
@@ -2599,7 +2613,7 @@ pub fn expiry_whole_second_strategy() -> impl Strategy<Value = PoolCase> {
         for j in 0..probes {
             ops.push(Op::Poll(((j * 65536) / probes) as u16 + 1));
         }
-        PoolCase { cfg: PoolCfg { idle_timeout_ms: timeout, max_idle: 32, cont, req_timeout_ms: None, open_is_ready, caller_host: 0, single_use: false, holder_polls_ready: false, ready_hides_close: false, build_path: 0 }, ops }
+        PoolCase { cfg: PoolCfg { idle_timeout_ms: timeout, max_idle: 32, cont, req_timeout_ms: None, open_is_ready, caller_host: 0, single_use: false, holder_polls_ready: false, ready_hides_close: false, build_path: 0, fused_attempts: false }, ops }
     })
 }
 
@@ -2625,7 +2639,7 @@ pub fn many_origins_strategy(max_ops: usize) -> impl Strategy<Value = PoolCase> 
     )
         .prop_map(|(n, mut ops, cont)| {
             ops.insert(0, Op::Sweep { n });
-            PoolCase { cfg: PoolCfg { idle_timeout_ms: None, max_idle: 32, cont, req_timeout_ms: None, open_is_ready: true, caller_host: 0, single_use: false, holder_polls_ready: false, ready_hides_close: false, build_path: 0 }, ops }
+            PoolCase { cfg: PoolCfg { idle_timeout_ms: None, max_idle: 32, cont, req_timeout_ms: None, open_is_ready: true, caller_host: 0, single_use: false, holder_polls_ready: false, ready_hides_close: false, build_path: 0, fused_attempts: false }, ops }
         })
 }
 
@@ -2655,7 +2669,7 @@ pub fn many_origins_mid_strategy(max_ops: usize) -> impl Strategy<Value = PoolCa
         .prop_map(|(n, mut before, after, cont, max_idle)| {
             before.push(Op::Sweep { n });
             before.extend(after);
-            PoolCase { cfg: PoolCfg { idle_timeout_ms: None, max_idle, cont, req_timeout_ms: None, open_is_ready: true, caller_host: 0, single_use: false, holder_polls_ready: false, ready_hides_close: false, build_path: 0 }, ops: before }
+            PoolCase { cfg: PoolCfg { idle_timeout_ms: None, max_idle, cont, req_timeout_ms: None, open_is_ready: true, caller_host: 0, single_use: false, holder_polls_ready: false, ready_hides_close: false, build_path: 0, fused_attempts: false }, ops: before }
         })
 }
 
@@ -2703,7 +2717,7 @@ pub fn near_origins_strategy(wt: Weights, max_ops: usize) -> impl Strategy<Value
 /// combination in which a released-but-busy connection, a closed idle entry and the idle bound meet.
 pub fn cfg_small_idle_strategy() -> impl Strategy<Value = PoolCfg> {
     (prop_oneof![Just(None), Just(Some(0u64)), Just(Some(3_600_000u64))], prop_oneof![Just(1usize), Just(2)], any::<bool>(), prop_oneof![1 => Just(true), 3 => Just(false)], any::<bool>())
-        .prop_map(|(t, m, cont, open_is_ready, holder_polls_ready)| PoolCfg { idle_timeout_ms: t, max_idle: m, cont, req_timeout_ms: None, open_is_ready, caller_host: 0, single_use: false, holder_polls_ready, ready_hides_close: false, build_path: 0 })
+        .prop_map(|(t, m, cont, open_is_ready, holder_polls_ready)| PoolCfg { idle_timeout_ms: t, max_idle: m, cont, req_timeout_ms: None, open_is_ready, caller_host: 0, single_use: false, holder_polls_ready, ready_hides_close: false, build_path: 0, fused_attempts: false })
 }
 
 pub fn cfg_any_strategy() -> impl Strategy<Value = PoolCfg> {
@@ -2715,8 +2729,9 @@ pub fn cfg_any_strategy() -> impl Strategy<Value = PoolCfg> {
         prop_oneof![2 => Just(false), 1 => Just(true)],
         prop_oneof![3 => Just(false), 1 => Just(true)],
         prop_oneof![2 => Just(0u8), 1 => 1u8..8],
+        prop_oneof![2 => Just(false), 1 => Just(true)],
     )
-        .prop_map(|(t, m, cont, open_is_ready, holder_polls_ready, ready_hides_close, build_path)| PoolCfg { idle_timeout_ms: t, max_idle: m, cont, req_timeout_ms: None, open_is_ready, caller_host: 0, single_use: false, holder_polls_ready, ready_hides_close, build_path })
+        .prop_map(|(t, m, cont, open_is_ready, holder_polls_ready, ready_hides_close, build_path, fused_attempts)| PoolCfg { idle_timeout_ms: t, max_idle: m, cont, req_timeout_ms: None, open_is_ready, caller_host: 0, single_use: false, holder_polls_ready, ready_hides_close, build_path, fused_attempts })
 }
 
 // ------------------------------------------------------------------------------------------------
